@@ -10,7 +10,7 @@ backings, numeric range).  Equality of lattice values is the semantic equivalenc
 crate's own `==`.  The heavy lifting (one lawfulness lemma per constructor, `LawfulA`) is in
 `HvLat/Laws/*.lean`; the theorems below are its instances by induction on `t`.
 -/
-import HvLat.Laws.All
+import HvLat.Laws.AllB
 
 namespace HvLat
 
@@ -71,6 +71,27 @@ theorem point_merge_eq_only (s o : Nat) (r : Nat × Bool) :
   by_cases h : s = o
   · subst h; simp; exact eq_comm
   · simp [h]
+
+/-- Dominating-pair is a lattice whenever its key lattice is totally ordered: for a key type `k`
+with `total k` (Max/Min over integers and bool, `()`, and `WithBot`/`WithTop`/`DomPair` of such)
+`DomPair<k, v>` is in the domain of all the theorems above (and of C02/C03), for any value lattice
+`v` of the universe — in particular merge is ACI. -/
+theorem domPair_lattice_of_total_key (k v : LTy) (hk : total k = true) (hk' : okB k = true)
+    (hv : ok v = true) :
+    ok (.domPair k v) = true ∧ LawfulA (lat (.domPair k v)) (sem (.domPair k v)) := by
+  have h : ok (.domPair k v) = true := by simp [ok, okA, hk, hk']; exact hv
+  exact ⟨h, lawfulA_of_ok _ h⟩
+
+/-- …and it is not one for a partially ordered key (the case the doc comment of dom_pair.rs warns
+about): with `SetUnion` keys `{1}`, `{2}`, `{1,2}` merge is not associative. -/
+theorem domPair_not_assoc_witness :
+    let L := lat (.domPair .set (.maxN 255))
+    let a : List Nat × Nat := ([1], 5)
+    let b : List Nat × Nat := ([2], 0)
+    let c : List Nat × Nat := ([1, 2], 0)
+    (L.merge (L.merge a b).1 c).1 = (([1, 2], 5) : List Nat × Nat) ∧
+      (L.merge a (L.merge b c).1).1 = (([1, 2], 0) : List Nat × Nat) := by
+  exact ⟨rfl, rfl⟩
 
 /-- every nesting depth is covered: the side condition holds for arbitrarily deep towers -/
 theorem ok_tower (n : Nat) : ok (Nat.rec LTy.set (fun _ t => LTy.map (LTy.withBot (LTy.vec t))) n) = true := by
